@@ -48,3 +48,73 @@ package annotations
 
 //@ func AnnotationHolder.FileName props C18,C14
 //@ ensures result == holder.fileName
+
+// ---- comment parsing (C16) and ranges (C18) ----
+
+//@ func getGroupOffsets props C16,C18,C14
+//@ ensures absent: implies(!(2*group+1 < len(matchIndices)) || matchIndices[2*group] < 0 || matchIndices[2*group+1] < 0, !ok && startByte == 0 && endByte == 0)
+//@ ensures present: implies(2*group+1 < len(matchIndices) && 2*group >= 0 && matchIndices[2*group] >= 0 && matchIndices[2*group+1] >= 0, ok && startByte == matchIndices[2*group] && endByte == matchIndices[2*group+1])
+//@ requires group >= 0
+
+// The regexp contract (assumed): a present group is a well-formed byte range of the matched text.
+//@ spec groupsOK(m []int, n int) bool = forall(g, 0, len(m)/2, implies(m[2*g] >= 0 && m[2*g+1] >= 0, m[2*g] <= m[2*g+1] && m[2*g+1] <= n))
+
+//@ func getGroupString props C16,C14
+//@ requires group >= 0 && groupsOK(matchIndices, len(commentText))
+//@ ensures absent: implies(!(2*group+1 < len(matchIndices)) || matchIndices[2*group] < 0 || matchIndices[2*group+1] < 0, !result1 && result0 == "")
+//@ ensures present: implies(2*group+1 < len(matchIndices) && matchIndices[2*group] >= 0 && matchIndices[2*group+1] >= 0, result1 && result0 == commentText[matchIndices[2*group]:matchIndices[2*group+1]])
+
+//@ func Attribute.GetValueRange props C18,C14
+//@ ensures order: result.StartLine == attr.Comment.Position.StartLine && result.EndLine == attr.Comment.Position.EndLine || result == attr.Comment.Range()
+//@ ensures found: implies(attr.Comment.Text != "" && strings.Index(attr.Comment.Text, attr.Value) >= 0, result.StartCol == attr.Comment.Position.StartCol+utf8.RuneCountInString(attr.Comment.Text[:strings.Index(attr.Comment.Text, attr.Value)]) && result.EndCol == result.StartCol+utf8.RuneCountInString(attr.Value) && result.StartCol <= result.EndCol)
+//@ ensures fallback: implies(attr.Comment.Text == "" || strings.Index(attr.Comment.Text, attr.Value) < 0, result == attr.Comment.Range())
+
+// Assumed contracts of the libraries the parser rests on (regexp, json5): shape only.
+//@ ufunc reMatches(re *regexp.Regexp, s string) bool
+//@ extern regexp.Regexp.FindStringSubmatchIndex
+//@ ensures implies(!reMatches(re, s), result == nil)
+//@ ensures implies(reMatches(re, s), len(result) == 10 && groupsOK(result, len(s)) && result[0] == 0 && fresh(result))
+//@ extern strings.TrimSpace pure
+//@ ensures len(result) <= len(s)
+//@ extern github.com/titanous/json5.Unmarshal
+//@ modifies cellof(v, map[string]any)
+
+//@ func parseCommentNode props C16,C14,C18
+//@ requires comment.Position.StartLine >= 0 && comment.Position.StartCol >= 0
+//@ ensures isattr: result1 == reMatches(parsingRegex, strings.TrimSpace(comment.Text))
+//@ ensures comment: implies(result1 && result2 == nil, result0.Comment == comment)
+//@ ensures noattr: implies(!result1, result2 == nil)
+
+//@ func byteOffsetToLineCol props C18,C14
+//@ requires startLine >= 0 && startCol >= 0
+//@ ensures line >= startLine && col >= 0 && implies(line == startLine, col >= startCol)
+//@ loop 0 invariant i >= 0 && line >= startLine && col >= 0 && implies(line == startLine, col >= startCol)
+
+//@ func getPropertiesRange props C18,C14
+//@ requires comment.Position.StartLine >= 0 && comment.Position.StartCol >= 0
+//@ ensures result.StartLine >= 0 && result.StartCol >= 0 && result.EndLine >= 0 && result.EndCol >= 0
+
+//@ spec isAttrLine(c gast.CommentNode) bool = reMatches(parsingRegex, strings.TrimSpace(c.Text))
+//@ rec countAttrLines(b gast.CommentBlock, n int) int = ite(n <= 0, 0, countAttrLines(b, n-1) + ite(isAttrLine(b.Comments[n-1]), 1, 0))
+
+//@ func NewAnnotationHolder props C16,C14
+//@ requires forall(i, 0, len(commentBlock.Comments), commentBlock.Comments[i].Position.StartLine >= 0 && commentBlock.Comments[i].Position.StartCol >= 0)
+//@ ensures meta: result0.fileName == commentBlock.FileName && result0.source == source && result0.docRange == commentBlock.Range
+//@ ensures count: implies(result1 == nil, len(result0.attributes) == countAttrLines(commentBlock, len(commentBlock.Comments)) && len(result0.attributes)+len(result0.nonAttributeComments) == len(commentBlock.Comments))
+//@ ensures attrs: implies(result1 == nil, forall(k, 0, len(commentBlock.Comments), implies(isAttrLine(commentBlock.Comments[k]), result0.attributes[countAttrLines(commentBlock, k)].Comment == commentBlock.Comments[k])))
+//@ ensures free: implies(result1 == nil, forall(k, 0, len(commentBlock.Comments), implies(!isAttrLine(commentBlock.Comments[k]), result0.nonAttributeComments[k-countAttrLines(commentBlock, k)].Comment == commentBlock.Comments[k] && result0.nonAttributeComments[k-countAttrLines(commentBlock, k)].Index == commentBlock.Comments[k].Index)))
+//@ loop 0 invariant 0 <= _n && _n <= len(commentBlock.Comments)
+//@ loop 0 invariant len(holder.attributes) == countAttrLines(commentBlock, _n) && len(holder.attributes)+len(holder.nonAttributeComments) == _n && fresh(holder.attributes) && fresh(holder.nonAttributeComments)
+//@ loop 0 invariant forall(k, 0, _n, 0 <= countAttrLines(commentBlock, k) && countAttrLines(commentBlock, k) <= k && countAttrLines(commentBlock, k) <= countAttrLines(commentBlock, _n) && k-countAttrLines(commentBlock, k) <= _n-countAttrLines(commentBlock, _n))
+//@ loop 0 invariant forall(k, 0, _n, implies(isAttrLine(commentBlock.Comments[k]), countAttrLines(commentBlock, k) < countAttrLines(commentBlock, _n) && holder.attributes[countAttrLines(commentBlock, k)].Comment == commentBlock.Comments[k]))
+//@ loop 0 invariant forall(k, 0, _n, implies(!isAttrLine(commentBlock.Comments[k]), k-countAttrLines(commentBlock, k) < _n-countAttrLines(commentBlock, _n) && holder.nonAttributeComments[k-countAttrLines(commentBlock, k)].Comment == commentBlock.Comments[k] && holder.nonAttributeComments[k-countAttrLines(commentBlock, k)].Index == commentBlock.Comments[k].Index))
+//@ loop 0 invariant holder.fileName == commentBlock.FileName && holder.source == source && holder.docRange == commentBlock.Range
+
+//@ func AnnotationHolder.GetDescription props C16,C01,C14
+//@ ensures descr: implies(hasAttr(holder, "Description"), forall(k, 0, len(holder.attributes), implies(isFirst(holder, "Description", k), result == holder.attributes[k].Description)))
+//@ ensures none: implies(!hasAttr(holder, "Description") && (len(holder.nonAttributeComments) == 0 || holder.nonAttributeComments[0].Index > 0), result == "")
+//@ ensures single: implies(!hasAttr(holder, "Description") && len(holder.nonAttributeComments) >= 1 && holder.nonAttributeComments[0].Index <= 0 && (len(holder.nonAttributeComments) == 1 || holder.nonAttributeComments[1].Index > 1), result == holder.nonAttributeComments[0].Value)
+//@ loop 0 invariant 0 <= _n && _n <= len(holder.nonAttributeComments) && lastFreeCommentIndex == _n-1 && len(freeComments) == _n && fresh(freeComments)
+//@ loop 0 invariant forall(k, 0, _n, holder.nonAttributeComments[k].Index <= k && freeComments[k] == holder.nonAttributeComments[k].Value)
+//@ loop 1 invariant 0 <= takeUntil && takeUntil <= len(freeComments) && i == takeUntil && forall(k, takeUntil, len(freeComments), freeComments[k] == "")
+//@ loop 1 decreases i
